@@ -7,6 +7,7 @@ import (
 	"go/token"
 	"go/types"
 	"reflect"
+	"regexp"
 	"sort"
 	"strings"
 
@@ -17,10 +18,12 @@ func init() {
 	register(
 		&Rule{ID: "PN-HASH", Doc: "no map keyed by (or == between) interface values whose repository implementors are not comparable, in code reachable from token entry points", Run: rulePNHash, Min: 1},
 		&Rule{ID: "PN-ASSERT", Doc: "every single-result type assertion reachable from token entry points is guarded by the matching Type() tag", Run: rulePNAssert, Min: 20},
+		&Rule{ID: "PN-OPTPTR", Doc: "optional pointer fields of the library's own structs (root key id, ...) are dereferenced only under a nil test", Run: rulePNOptPtr, Min: 2},
 		&Rule{ID: "PN-PBREQ", Doc: "pointer-typed protobuf fields are dereferenced only when the schema marks them required (or under a nil guard / through a getter)", Run: rulePNPbReq, Min: 10},
 		&Rule{ID: "PN-STDLIB", Doc: "length / provenance preconditions of ed25519 and encoding/binary calls hold on every path", Run: rulePNStdlib, Min: 8},
 		&Rule{ID: "PN-INDEX", Doc: "sign-changing or truncating integer conversions that feed an index are bounded in the source domain first", Run: rulePNIndex, Min: 2},
 		&Rule{ID: "PN-CONSTINDEX", Doc: "a slice indexed or sliced with a constant is first proved long enough", Run: rulePNConstIndex, Min: 2},
+		&Rule{ID: "PN-CLOSE", Doc: "no channel can be closed twice (explicit close next to a deferred close, close inside a loop)", Run: rulePNClose, Min: 1},
 		&Rule{ID: "PN-DIV", Doc: "integer division by a non-constant divisor is guarded by a zero test", Run: rulePNDiv, Min: 1},
 		&Rule{ID: "PN-EXPLICIT", Doc: "explicit panic calls reachable from token entry points are discharged by a named totality argument", Run: rulePNExplicit, Min: 2},
 	)
@@ -365,6 +368,81 @@ func pbFieldLoad(v ssa.Value) (st *types.Struct, idx int, owner string, ok bool)
 
 func rulePNPbReq(p *Prog, r *Reporter) {
 	globalP = p
+	p.partialDecode = ""
+	// the discharge "required" relies on the decoder's required-field check: no decode may switch it off
+	nDecode := 0
+	var optDecoded []*types.Struct
+	p.partialTypes = nil
+	for _, pk := range []string{"biscuit", "datalog", "parser"} {
+		sp := p.SSAPkg[pk]
+		if sp == nil {
+			continue
+		}
+		fns := append([]*ssa.Function{}, p.funcsIn(pk)...)
+		if ini := sp.Func("init"); ini != nil {
+			fns = append(fns, ini)
+		}
+		for _, fn := range fns {
+			for _, b := range fn.Blocks {
+				for _, in := range b.Instrs {
+					switch x := in.(type) {
+					case *ssa.Store:
+						fa, ok := x.Addr.(*ssa.FieldAddr)
+						if !ok || !isNamed(deref(fa.X.Type()), "google.golang.org/protobuf/proto", "UnmarshalOptions") || fieldName(fa) != "AllowPartial" {
+							continue
+						}
+						k, isK := x.Val.(*ssa.Const)
+						if isK && k.Value != nil && k.Value.String() == "false" {
+							r.OK(p.instrPos(x), p.FuncName(fn), "UnmarshalOptions.AllowPartial", "left false")
+						} else {
+							p.partialDecode = p.instrPos(x)
+							r.OK(p.instrPos(x), p.FuncName(fn), "UnmarshalOptions.AllowPartial", "a decoder accepts partial messages: `required` is not trusted anywhere below, every dereference needs its own nil test")
+						}
+					case ssa.CallInstruction:
+						if f := x.Common().StaticCallee(); f != nil && (calleeName(f) == "google.golang.org/protobuf/proto.Unmarshal" || strings.HasPrefix(calleeName(f), "google.golang.org/protobuf/proto.UnmarshalOptions.")) {
+							nDecode++
+							if strings.HasPrefix(calleeName(f), "google.golang.org/protobuf/proto.UnmarshalOptions.") {
+								for _, a := range x.Common().Args {
+									if n, isN := deref(unwrap(a).Type()).(*types.Named); isN {
+										if stt, isS := n.Underlying().(*types.Struct); isS && n.Obj().Pkg() != nil && n.Obj().Pkg().Name() == "pb" {
+											optDecoded = append(optDecoded, stt)
+										}
+									}
+								}
+							}
+						}
+					}
+				}
+			}
+		}
+	}
+	if p.partialDecode != "" {
+		p.partialTypes = map[*types.Struct]bool{}
+		var mark func(st *types.Struct)
+		mark = func(st *types.Struct) {
+			if st == nil || p.partialTypes[st] {
+				return
+			}
+			p.partialTypes[st] = true
+			for i := 0; i < st.NumFields(); i++ {
+				t := st.Field(i).Type()
+				if it, isI := t.Underlying().(*types.Interface); isI && strings.Contains(st.Tag(i), "protobuf_oneof:") {
+					for _, w := range p.repoImplementors(it) {
+						if ws, isS := deref(w).Underlying().(*types.Struct); isS && ws.NumFields() == 1 {
+							mark(pbMsgOf(ws.Field(0).Type()))
+						}
+					}
+					continue
+				}
+				mark(pbMsgOf(t))
+			}
+		}
+		for _, st := range optDecoded {
+			mark(st)
+		}
+	}
+	r.Check(nDecode >= 3, "builder.go", "biscuit", "decode calls", fmt.Sprintf("%d protobuf decode calls inspected", nDecode), "fewer protobuf decode calls than expected: the decoder configuration cannot be checked")
+	r.Check(len(p.underOneof()) > 0 && p.oneofWrappers >= 3, "pb/biscuit.pb.go", "pb", "oneof members", "oneof wrapper types and the messages reachable through them were identified in the generated code", "no oneof wrapper types found in package pb: the set of messages whose required fields the decoder does not enforce cannot be computed")
 	for _, fn := range p.funcsIn("biscuit") {
 		name := p.FuncName(fn)
 		for _, b := range fn.Blocks {
@@ -415,8 +493,27 @@ func (p *Prog) checkPbDeref(r *Reporter, fn *ssa.Function, b *ssa.BasicBlock, in
 	if !isPB {
 		return
 	}
-	if req {
+	if req && p.partialDecode != "" && p.partialTypes[st] {
+		if nilGuard(p, b, p.D(ptr), false) {
+			r.OK(pos, name, construct, "required field dereferenced under a nil guard (a decoder accepts partial messages)")
+			return
+		}
+		r.Bad(pos, name, construct, "required field dereferenced without a nil test while the decoder configured at "+p.partialDecode+" accepts messages with missing required fields (AllowPartial): crafted bytes make this a nil-pointer panic")
+		return
+	}
+	if req && !p.underOneof()[st] {
 		r.OK(pos, name, construct, "schema marks the field required: proto.Unmarshal rejects messages without it")
+		return
+	}
+	if req {
+		// protobuf-go (decode fast path, impl/decode.go + initOneofFieldCoders) propagates the
+		// "initialized" state of a nested message only for the first member of a oneof: a message
+		// that is only reachable through a oneof member is accepted with required fields missing.
+		if nilGuard(p, b, p.D(ptr), false) {
+			r.OK(pos, name, construct, "required field of a oneof member dereferenced under a nil guard")
+			return
+		}
+		r.Bad(pos, name, construct, "required field of a message that is reached through a oneof member: proto.Unmarshal does not enforce `required` there, so a token omitting the field makes this a nil-pointer panic (test for nil)")
 		return
 	}
 	if nilGuard(p, b, p.D(ptr), false) {
@@ -1083,3 +1180,230 @@ func rulePNConstIndex(p *Prog, r *Reporter) {
 		}
 	}
 }
+
+func rulePNClose(p *Prog, r *Reporter) {
+	globalP = p
+	n := 0
+	for _, fn := range p.funcsIn("biscuit", "datalog", "parser") {
+		type cl struct {
+			in       ssa.Instruction
+			deferred bool
+			ch       string
+		}
+		var closes []cl
+		for _, b := range fn.Blocks {
+			for _, in := range b.Instrs {
+				c, ok := in.(ssa.CallInstruction)
+				if !ok {
+					continue
+				}
+				bi, isB := c.Common().Value.(*ssa.Builtin)
+				if !isB || bi.Name() != "close" {
+					continue
+				}
+				_, def := in.(*ssa.Defer)
+				closes = append(closes, cl{in, def, p.D(unwrap(c.Common().Args[0]))})
+			}
+		}
+		byCh := map[string][]cl{}
+		for _, c := range closes {
+			byCh[c.ch] = append(byCh[c.ch], c)
+		}
+		for ch, cs := range byCh {
+			n++
+			bad := ""
+			nDef := 0
+			for _, c := range cs {
+				if c.deferred {
+					nDef++
+				}
+				for _, l := range naturalLoops(fn) {
+					if l.body[c.in.Block()] {
+						bad = "close inside a loop"
+					}
+				}
+			}
+			if nDef > 1 {
+				bad = "two deferred closes"
+			}
+			if nDef >= 1 && len(cs) > nDef {
+				bad = "an explicit close on a path that also runs the deferred close at return"
+			}
+			if nDef == 0 && len(cs) > 1 {
+				// several explicit closes: must be on mutually exclusive paths
+				for i := range cs {
+					for j := range cs {
+						if i != j && reachAvoiding(cs[i].in.Block(), cs[j].in.Block(), nil) {
+							bad = "two closes on one path"
+						}
+					}
+				}
+			}
+			r.Check(bad == "", p.instrPos(cs[0].in), p.FuncName(fn), "close("+normaliseD(ch)+")", "closed at most once on every path", "channel "+ch+" can be closed twice ("+bad+"): 'close of closed channel' panics, on a library goroutine it kills the process")
+		}
+	}
+	if n == 0 {
+		r.Bad("?", "datalog", "close sites", "no channel close found (the rule-body producer and Apply's stop channel are expected)")
+	}
+}
+
+// underOneof: struct types of package pb that are (transitively) reachable through a
+// message-typed member of a oneof. Their `required` fields are not enforced by the decoder.
+func (p *Prog) underOneof() map[*types.Struct]bool {
+	if p.oneofCache != nil {
+		return p.oneofCache
+	}
+	out := map[*types.Struct]bool{}
+	pk := p.Pkgs["pb"]
+	if pk == nil {
+		p.oneofCache = out
+		return out
+	}
+	msgOf := func(t types.Type) *types.Struct {
+		for {
+			switch u := t.(type) {
+			case *types.Pointer:
+				t = u.Elem()
+				continue
+			case *types.Slice:
+				t = u.Elem()
+				continue
+			}
+			break
+		}
+		n, ok := t.(*types.Named)
+		if !ok || n.Obj().Pkg() == nil || n.Obj().Pkg() != pk.Types {
+			return nil
+		}
+		st, _ := n.Underlying().(*types.Struct)
+		return st
+	}
+	var mark func(st *types.Struct)
+	mark = func(st *types.Struct) {
+		if st == nil || out[st] {
+			return
+		}
+		out[st] = true
+		for i := 0; i < st.NumFields(); i++ {
+			if !strings.Contains(st.Tag(i), "protobuf:") && !strings.Contains(st.Tag(i), "protobuf_oneof:") {
+				continue
+			}
+			if strings.Contains(st.Tag(i), "protobuf_oneof:") {
+				continue // members are found through their wrapper types below
+			}
+			mark(msgOf(st.Field(i).Type()))
+		}
+	}
+	sc := pk.Types.Scope()
+	// oneof wrappers: single-field structs whose tag ends in ",oneof"
+	var wrappers []*types.Struct
+	for _, nm := range sc.Names() {
+		tn, ok := sc.Lookup(nm).(*types.TypeName)
+		if !ok {
+			continue
+		}
+		st, ok := tn.Type().Underlying().(*types.Struct)
+		if !ok || st.NumFields() != 1 || !strings.Contains(st.Tag(0), ",oneof") {
+			continue
+		}
+		wrappers = append(wrappers, st)
+	}
+	for _, w := range wrappers {
+		mark(msgOf(w.Field(0).Type()))
+	}
+	// a message that holds a oneof whose member is marked is itself only as trustworthy as
+	// its own position; nothing to add. Iterate: messages nested under marked ones were marked by mark().
+	p.oneofCache = out
+	p.oneofWrappers = len(wrappers)
+	return out
+}
+
+// pbMsgOf: the struct of the generated message type behind pointers / slices, or nil.
+func pbMsgOf(t types.Type) *types.Struct {
+	for {
+		switch u := t.(type) {
+		case *types.Pointer:
+			t = u.Elem()
+			continue
+		case *types.Slice:
+			t = u.Elem()
+			continue
+		}
+		break
+	}
+	n, ok := t.(*types.Named)
+	if !ok || n.Obj().Pkg() == nil || n.Obj().Pkg().Name() != "pb" {
+		return nil
+	}
+	st, _ := n.Underlying().(*types.Struct)
+	return st
+}
+
+// rulePNOptPtr: *x.f where f is a pointer-to-scalar field of a repository struct (not generated code).
+func rulePNOptPtr(p *Prog, r *Reporter) {
+	globalP = p
+	for _, fn := range p.funcsIn("biscuit", "datalog", "parser") {
+		name := p.FuncName(fn)
+		for _, b := range fn.Blocks {
+			for _, in := range b.Instrs {
+				u, ok := in.(*ssa.UnOp)
+				if !ok || u.Op != token.MUL {
+					continue
+				}
+				// u = *ptr ; ptr = *(&x.f)
+				ld, ok := u.X.(*ssa.UnOp)
+				if !ok || ld.Op != token.MUL {
+					continue
+				}
+				fa, ok := ld.X.(*ssa.FieldAddr)
+				if !ok {
+					continue
+				}
+				pt, ok := ld.Type().Underlying().(*types.Pointer)
+				if !ok {
+					continue
+				}
+				if _, isBasic := pt.Elem().Underlying().(*types.Basic); !isBasic {
+					continue
+				}
+				owner, isN := deref(fa.X.Type()).(*types.Named)
+				if !isN || owner.Obj().Pkg() == nil || owner.Obj().Pkg().Name() == "pb" || shortNames[owner.Obj().Pkg().Path()] == "" {
+					continue
+				}
+				construct := "dereference of " + owner.Obj().Name() + "." + fieldName(fa)
+				d := p.D(ld)
+				okG := nilGuard(p, b, d, false)
+				if !okG {
+					// `if v := x.f; v != nil { *v }`: the guard is on this very load
+					for _, g := range guardsOf(b) {
+						if bo, isB := g.cond.(*ssa.BinOp); isB && (bo.X == ssa.Value(ld) || bo.Y == ssa.Value(ld)) && (isNilConst(bo.X) || isNilConst(bo.Y)) && ((bo.Op == token.NEQ) == g.val) {
+							okG = true
+						}
+					}
+				}
+				// a field this function has just set from an address (x.f = &v) is not optional here
+				if !okG {
+					if al, isA := fa.X.(*ssa.Alloc); isA {
+						if v, set := litFields(al)[fieldName(fa)]; set {
+							if _, isAddr := v.(*ssa.Alloc); isAddr {
+								okG = true
+							}
+						}
+					}
+				}
+				// grammar nodes: a field that is a mandatory capture (`@Token`, no ?, *, | around it) is set by every successful parse
+				if !okG && owner.Obj().Pkg().Name() == "parser" {
+					if st, isS := owner.Underlying().(*types.Struct); isS {
+						if mandatoryCapture.MatchString(strings.TrimSpace(st.Tag(fa.Field))) {
+							r.OK(p.instrPos(u), name, construct, "mandatory capture of the grammar: set by every successful parse")
+							continue
+						}
+					}
+				}
+				r.Check(okG, p.instrPos(u), name, construct, "under a nil test of that field", "an optional pointer field is dereferenced without a nil test: when it was never set (no option given) this is a nil-pointer panic instead of the error or result the caller expects")
+			}
+		}
+	}
+}
+
+var mandatoryCapture = regexp.MustCompile("^@(@|[A-Za-z]+)$")
